@@ -112,7 +112,8 @@ Theorem c08_late_checkpoint_refuted :
 Proof. exact late_checkpoint_refuted. Qed.
 Print Assumptions c08_late_checkpoint_refuted.
 
-(* 4. CONCURRENT APPENDS.  The tail path takes the messages from the mr sidecar and the head from the full sidecar.
+(* 4. CONCURRENT APPENDS.  The tail path takes the messages from the mr sidecar and the head from the full sidecar; an
+   append writes the full sidecar line first, the mr line after it (write order re-read from the source on every run).
    While a frame that is not in the mr projection is being appended, the compile sees the thread after the append
    (every stage of the append: the projection is unchanged, the head is the new frame) ... *)
 Theorem c08_racing_non_mr_frame : forall keep l f a,
@@ -122,9 +123,33 @@ Theorem c08_racing_non_mr_frame : forall keep l f a,
 Proof. exact racing_cut_non_mr_frame. Qed.
 Print Assumptions c08_racing_non_mr_frame.
 
-(* ... S24: while a MESSAGE is being appended (full sidecar written, mr sidecar not yet) the cut is neither that of
-   the thread before nor after (witness replayed on the implementation: corpus/C08/s24_cut_during_append.json; open
-   finding `cut_ahead_of_mr_sidecar_during_append`) *)
+(* ... S24 (fixed, /repo 40d4693): a frame that IS in the mr projection (message, run_ended).  The repaired readers
+   take the head through head_seq_seen_by_messages_runs_v1 (`head_seen true`): when the full sidecar's last frame
+   belongs in the mr sidecar and the reader's view of the mr sidecar does not hold it yet, the head is the frame before
+   it.  A compile that runs at any stage of the append of f then takes the cut of the thread BEFORE the append while f
+   is in the full sidecar only (f in the mr projection), and the cut of the thread AFTER it otherwise ... *)
+Theorem c08_racing_append_linearizes : forall l f a,
+  valid_log (l ++ [f]) = true -> l <> [] ->
+  existsb (is_anchor a) (filter mr_keep l) = true ->
+  tail_cut (filter mr_keep l) (head_seen true (l ++ [f]) (filter mr_keep l)) a
+    = (if mr_keep f then cut_point l a else cut_point (l ++ [f]) a)
+  /\ tail_cut (filter mr_keep (l ++ [f])) (head_seen true (l ++ [f]) (filter mr_keep (l ++ [f]))) a
+    = cut_point (l ++ [f]) a.
+Proof. exact racing_append_linearizes. Qed.
+Print Assumptions c08_racing_append_linearizes.
+
+(* ... and decision and bundle are those of that thread state (f not a checkpoint: the checkpoint sidecar is untouched) *)
+Theorem c08_racing_compile_linearizes : forall P texts l f a from,
+  valid_log (l ++ [f]) = true -> wf_refs (l ++ [f]) = true -> l <> [] -> is_ckpt f = false ->
+  tail_cut (filter mr_keep l) (head_seen true (l ++ [f]) (filter mr_keep l)) a = Some from ->
+  Some (compile_with P texts (filter mr_keep l) (filter is_ckpt l) from a)
+  = if mr_keep f then compile P texts l a else compile P texts (l ++ [f]) a.
+Proof. exact racing_compile_linearizes. Qed.
+Print Assumptions c08_racing_compile_linearizes.
+
+(* the code before the fix (head = the full sidecar's last seq, `head_seen false` = head_seq): while a MESSAGE is being
+   appended the cut is neither that of the thread before nor after (witness replayed on the implementation:
+   corpus/C08/s24_cut_during_append.json; the check is red with the fix reverted) *)
 Theorem c08_racing_cut_refuted :
   exists l f a,
     valid_log (l ++ [f]) = true
@@ -132,6 +157,38 @@ Theorem c08_racing_cut_refuted :
     /\ tail_cut (filter mr_keep l) (head_seq (l ++ [f])) a <> cut_point (l ++ [f]) a.
 Proof. exact racing_cut_refuted. Qed.
 Print Assumptions c08_racing_cut_refuted.
+
+Example c08_racing_cut_unfixed_example :
+  valid_log (race_log ++ [race_frame]) = true /\ race_log <> []
+  /\ existsb (is_anchor 2) (filter mr_keep race_log) = true
+  /\ tail_cut (filter mr_keep race_log) (head_seen false (race_log ++ [race_frame]) (filter mr_keep race_log)) 2 = Some 3
+  /\ cut_point race_log 2 = Some 2 /\ cut_point (race_log ++ [race_frame]) 2 = Some 2
+  /\ tail_cut (filter mr_keep race_log) (head_seen true (race_log ++ [race_frame]) (filter mr_keep race_log)) 2 = Some 2.
+Proof. exact racing_cut_unfixed_refuted. Qed.
+
+(* ... S25 (fixed): a CHECKPOINT frame in flight (full sidecar written, checkpoint sidecar / index not yet).  The head is
+   the checkpoint frame; the repaired *_for_compile_v1 lookups (compaction_checkpoint_caches_behind_head_v1, `ckpts_seen
+   true`) answer from the stream when the checkpoint caches do not hold the head yet: the thread AFTER the append *)
+Theorem c08_racing_checkpoint_linearizes : forall P texts l f a from,
+  valid_log (l ++ [f]) = true -> wf_refs (l ++ [f]) = true -> is_ckpt f = true ->
+  tail_cut (filter mr_keep l) (head_seen true (l ++ [f]) (filter mr_keep l)) a = Some from ->
+  Some (compile_with P texts (filter mr_keep l) (ckpts_seen true (l ++ [f]) (filter is_ckpt l)) from a)
+  = compile P texts (l ++ [f]) a.
+Proof. exact racing_checkpoint_linearizes. Qed.
+Print Assumptions c08_racing_checkpoint_linearizes.
+
+(* before that fix (`ckpts_seen false` = the caches as found): cut = the checkpoint frame, checkpoints = those of the thread
+   before it — neither state of the thread (replayed on the implementation: corpus/C08/s25_checkpoint_during_append.json) *)
+Theorem c08_racing_checkpoint_refuted :
+  valid_log (race_log ++ [race_ckpt]) = true /\ wf_refs (race_log ++ [race_ckpt]) = true
+  /\ tail_cut (filter mr_keep race_log) (head_seen true (race_log ++ [race_ckpt]) (filter mr_keep race_log)) 2 = Some 3
+  /\ Some (compile_with unfixed_params no_texts (filter mr_keep race_log) (ckpts_seen false (race_log ++ [race_ckpt]) (filter is_ckpt race_log)) 3 2)
+     <> compile unfixed_params no_texts race_log 2
+  /\ Some (compile_with unfixed_params no_texts (filter mr_keep race_log) (ckpts_seen false (race_log ++ [race_ckpt]) (filter is_ckpt race_log)) 3 2)
+     <> compile unfixed_params no_texts (race_log ++ [race_ckpt]) 2
+  /\ option_map (fun r => b_items (snd r)) (compile unfixed_params no_texts (race_log ++ [race_ckpt]) 2) = Some [ISummary 0 1; IUser 2].
+Proof. exact racing_checkpoint_unfixed_refuted. Qed.
+Print Assumptions c08_racing_checkpoint_refuted.
 
 (* 5. WHICH checkpoints.  The selected checkpoints are visible cumulative checkpoints, at most max_levels of them; the
    last one has the largest to_seq of all visible cumulative checkpoints (on a tie the frame with the largest seq);
